@@ -404,6 +404,8 @@ struct Session<'d> {
     step_now: usize,
     /// uses_chrono / uuid / serde_json / regress as last observed
     last_uses: [bool; 4],
+    /// titled add_type schemas (exact text) and the id their first delivery returned
+    titled_seen: BTreeMap<String, TypeId>,
 }
 
 fn op_sources<'a>(ops: &'a [Op], idx: usize) -> &'a Op {
@@ -442,6 +444,7 @@ impl<'d> Session<'d> {
             is_variant: false,
             step_now: 0,
             last_uses: [false; 4],
+            titled_seen: BTreeMap::new(),
         }
     }
 
@@ -1742,6 +1745,45 @@ fn run_ops_inner(settings: &SettingsDesc, ops: &[Op], faults_mode: bool, attribu
                             obs,
                             "re-adding an already added schema returns the same id and adds no definitions",
                         );
+                    }
+                }
+                // ----- a TITLED schema delivered again under another hint -----
+                // (the title names the type, so it is the same type: same id, and
+                // nothing new is defined - the children are named after the title too)
+                if !is_readd && was_clean && s.clean {
+                    if let (Op::AddType { schema, poison: None, .. }, CallResult::Ok(Some(id))) = (&src, &res) {
+                        if schema.get("title").is_some() {
+                            let k = schema.to_string();
+                            match s.titled_seen.get(&k).cloned() {
+                                None => {
+                                    s.titled_seen.insert(k, id.clone());
+                                }
+                                Some(first) => {
+                                    s.out.probe("titled_schema_delivered_again");
+                                    if &first != id {
+                                        s.violate(
+                                            "I6",
+                                            format!("readd-id-changed:{opkind}(titled, other hint)"),
+                                            step,
+                                            format!("the same titled schema returned {first:?} under its first hint and {id:?} now"),
+                                            "re-adding an already added schema returns the same id and adds no definitions",
+                                        );
+                                    }
+                                    if let (Some(b), Some(a)) = (&scan_before, &s.last_scan) {
+                                        if b.root_type_names != a.root_type_names {
+                                            let new: Vec<&String> = a.root_type_names.difference(&b.root_type_names).take(6).collect();
+                                            s.violate(
+                                                "I6",
+                                                format!("readd-new-defs:{opkind}(titled, other hint)"),
+                                                step,
+                                                format!("delivering an already delivered titled schema under another hint defined {new:?}"),
+                                                "re-adding an already added schema returns the same id and adds no definitions",
+                                            );
+                                        }
+                                    }
+                                }
+                            }
+                        }
                     }
                 }
                 if attribute {
